@@ -227,3 +227,47 @@ Theorem C05_json_view_order : forall d vs vs' es,
   same_content d (set_member K_VIEWS (JObj vs') d).
 Proof. exact PropsJson.C05_json_view_order. Qed.
 Print Assumptions C05_json_view_order.
+
+(* ---- omission of empty views (JsonViewOmit.v, JsonViewOmitProofs.v): the %VIEWS entry of a view without members may be
+   left out.  restore_views d writes out an entry  name : { %SOFA : id, %MEMBERS : [] }  for every Sofa entry of d that has
+   none; doc_ok_json asks for an entry per sofa, so it is required of restore_views d. ---- *)
+From Cassis Require Import JsonViewOmit JsonViewOmitProofs.
+
+Theorem C05_json_empty_views_denote : forall L s d, denote_json L s (restore_views d) = denote_json L s d.
+Proof. exact denote_json_restore. Qed.
+Print Assumptions C05_json_empty_views_denote.
+
+Theorem C05_json_empty_views_load : forall L s d,
+  load_json L s (restore_views d) = load_json L s d /\ load_made L s (restore_views d) = load_made L s d.
+Proof. exact restore_views_invariant. Qed.
+Print Assumptions C05_json_empty_views_load.
+
+(* the writer's direction: omit_views keep d leaves out the %VIEWS entries without members whose name a Sofa entry of d
+   carries and which `keep` does not retain *)
+Theorem C05_json_empty_views_omitted : forall L s keep d vs,
+  doc_views d = Ok vs -> NoDup (map fst vs) ->
+  denote_json L s (omit_views keep d) = denote_json L s d /\ load_json L s (omit_views keep d) = load_json L s d
+  /\ load_made L s (omit_views keep d) = load_made L s d.
+Proof. exact omit_views_invariant. Qed.
+Print Assumptions C05_json_empty_views_omitted.
+
+Theorem C05_json_load_is_denotation_omitted : forall L s d cc,
+  doc_ok_json L s (restore_views d) = true -> denote_json L s d = Ok cc -> load_json L s d = Ok (with_initial_view cc).
+Proof. exact load_json_is_denotation_omitted. Qed.
+Print Assumptions C05_json_load_is_denotation_omitted.
+
+(* non-vacuity: two views, the annotation lives in the second one; the entry of the initial view is really left out, the
+   document is well-formed once it is written out again, and the initial sofa keeps the id 4 and the sofaNum 2 *)
+Definition ex_json : json :=
+  JObj [(K_FS, JArr [JObj [(K_ID, JInt 4); (K_TYPE, JStr "uima.cas.Sofa"); ("sofaNum", JInt 2); ("sofaID", JStr "_InitialView"); ("sofaString", JStr "Hello")];
+                     JObj [(K_ID, JInt 9); (K_TYPE, JStr "uima.cas.Sofa"); ("sofaNum", JInt 5); ("sofaID", JStr "other"); ("sofaString", JStr "World wide")];
+                     JObj [(K_ID, JInt 11); (K_TYPE, JStr "uima.tcas.Annotation"); ("@sofa", JInt 9); ("begin", JInt 0); ("end", JInt 5)]]);
+        (K_VIEWS, JObj [("_InitialView", JObj [(K_SOFA, JInt 4); (K_MEMBERS, JArr [])]);
+                        ("other", JObj [(K_SOFA, JInt 9); (K_MEMBERS, JArr [JInt 11])])])].
+Example C05_json_empty_views_premises_hold :
+  let d' := omit_views (fun _ => false) ex_json in
+  res_map (map fst) (doc_views d') = Ok ["other"] /\
+  doc_ok_json std_lex builtin_schema d' = false /\ doc_ok_json std_lex builtin_schema (restore_views d') = true /\
+  res_map (fun cc => map (fun so => (cs_id so, cs_num so, cs_name so, cs_members so)) (cc_sofas cc)) (load_json std_lex builtin_schema d')
+    = Ok [(4, 2, "_InitialView", []); (9, 5, "other", [11])].
+Proof. vm_compute. repeat split; reflexivity. Qed.
